@@ -2,6 +2,7 @@ import Casket.Proofs.Parser
 import Casket.Proofs.ParserTerm
 import Casket.Proofs.ParserRT
 import Casket.Proofs.ParserCycle
+import Casket.Proofs.Env
 import Casket.Proofs.Lexer
 /-
 C10 — Casketfile parsing is total, terminating and structure-preserving.
@@ -149,6 +150,22 @@ example :
     (expectedBlock b).keys = [[0x68, 0x6F, 0x73, 0x74], [0x62]] ∧
     (expectedBlock b).tokens.map (fun p => (p.1, p.2.length)) = [([0x64, 0x69, 0x72], 6), ([0x6C, 0x6F, 0x67], 1)] := by
   decide
+
+/-! ### environment placeholders -/
+
+/-- A placeholder `{$NAME}` inside a token is replaced by the variable's value (unset = empty): for every text
+`pre{$NAME}post` whose other bytes, name and value are free of `{` (a value that itself contains a placeholder
+is expanded again by the real code — and a value that contains its own placeholder is finding F19).
+The `{%NAME%}` form is covered by the correspondence streams only. -/
+theorem C10_env_replaced (env : Env) (pre name post : Bytes) (fuel : Nat) (hfuel : 2 ≤ fuel)
+    (h1 : (0x7B : UInt8) ∉ pre) (h2 : (0x7B : UInt8) ∉ name) (h3 : (0x7B : UInt8) ∉ post)
+    (h4 : (0x7B : UInt8) ∉ getenv env name) (h5 : (0x7D : UInt8) ∉ name) (h6 : name ≠ []) :
+    replaceEnvVars env fuel (dollarRef pre name post) = some (pre ++ getenv env name ++ post) :=
+  replaceEnvVars_dollar env pre name post fuel hfuel h1 h2 h3 h4 h5 h6
+
+/-- non-vacuity: `a{$X}:80` with X = `hi` -/
+example : replaceEnvVars [([0x58], [0x68, 0x69])] 5 (dollarRef [0x61] [0x58] [0x3A, 0x38, 0x30]) = some [0x61, 0x68, 0x69, 0x3A, 0x38, 0x30] :=
+  C10_env_replaced _ _ _ _ 5 (by decide) (by decide) (by decide) (by decide) (by decide) (by decide) (by decide)
 
 /-! ### import cycles (finding F8, repaired) -/
 
